@@ -435,6 +435,9 @@ func (ts *TermStore) Bin(op Op, a, b *Term) *Term {
 			if b.val == 1 {
 				return a
 			}
+			if constLeaves(a, 24) {
+				return ts.mapLeaves(a, func(k uint64) uint64 { return (k * b.val) & m })
+			}
 			if b.val&(b.val-1) == 0 {
 				return ts.Bin(OpShl, a, ts.Const(w, uint64(bits.TrailingZeros64(b.val))))
 			}
@@ -445,6 +448,11 @@ func (ts *TermStore) Bin(op Op, a, b *Term) *Term {
 		}
 		if b.op == OpConst && b.val != 0 && b.val&(b.val-1) == 0 {
 			return ts.Bin(OpLShr, a, ts.Const(w, uint64(bits.TrailingZeros64(b.val))))
+		}
+		if b.op == OpConst && b.val != 0 {
+			if q := ts.udivByRange(a, b.val); q != nil {
+				return q
+			}
 		}
 	case OpURem:
 		if b.op == OpConst && b.val == 1 {
@@ -457,10 +465,35 @@ func (ts *TermStore) Bin(op Op, a, b *Term) *Term {
 			if _, hi := ts.ubounds(a); hi < b.val {
 				return a
 			}
+			// a - (a/c)*c when the quotient has few possible values
+			if q := ts.udivByRange(a, b.val); q != nil {
+				return ts.Bin(OpSub, a, ts.Bin(OpMul, q, b))
+			}
 		}
 	case OpSDiv:
 		if b.op == OpConst && b.val == 1 {
 			return a
+		}
+		// both operands non-negative: the unsigned quotient
+		if b.op == OpConst && b.val != 0 && b.val < uint64(1)<<uint(w-1) {
+			lo, hi := ts.ubounds(a)
+			if hi < uint64(1)<<uint(w-1) {
+				return ts.Bin(OpUDiv, a, b)
+			}
+			// dividend negative throughout: truncated division is -((-a)/c)
+			if lo >= uint64(1)<<uint(w-1) {
+				return ts.Neg(ts.Bin(OpUDiv, ts.Neg(a), b))
+			}
+		}
+	case OpSRem:
+		if b.op == OpConst && b.val != 0 && b.val < uint64(1)<<uint(w-1) {
+			lo, hi := ts.ubounds(a)
+			if hi < uint64(1)<<uint(w-1) {
+				return ts.Bin(OpURem, a, b)
+			}
+			if lo >= uint64(1)<<uint(w-1) {
+				return ts.Neg(ts.Bin(OpURem, ts.Neg(a), b))
+			}
 		}
 	case OpBAnd:
 		if a.op == OpConst {
@@ -715,6 +748,45 @@ func (ts *TermStore) SExt(a *Term, w int) *Term {
 	return ts.mk(OpSExt, w, 0, "", a)
 }
 
+// udivByRange: a / c as a chain of comparisons when the unsigned range of a spans at most 16
+// quotient values (nil otherwise).
+func (ts *TermStore) udivByRange(a *Term, c uint64) *Term {
+	lo, hi := ts.ubounds(a)
+	ql, qh := lo/c, hi/c
+	if qh-ql > 16 {
+		return nil
+	}
+	r := ts.Const(a.w, ql)
+	for q := ql + 1; q <= qh; q++ {
+		// q*c <= hi, so it does not overflow
+		r = ts.Ite(ts.Cmp(OpULe, ts.Const(a.w, q*c), a), ts.Const(a.w, q), r)
+	}
+	return r
+}
+
+// constLeaves: t is an ite tree (at most n nodes) whose leaves are all constants.
+func constLeaves(t *Term, n int) bool {
+	var walk func(t *Term) bool
+	walk = func(t *Term) bool {
+		if t.op == OpConst {
+			return true
+		}
+		if t.op != OpIte || n <= 0 {
+			return false
+		}
+		n--
+		return walk(t.a[1]) && walk(t.a[2])
+	}
+	return t.op == OpIte && walk(t)
+}
+
+func (ts *TermStore) mapLeaves(t *Term, f func(uint64) uint64) *Term {
+	if t.op == OpConst {
+		return ts.Const(t.w, f(t.val))
+	}
+	return ts.Ite(t.a[0], ts.mapLeaves(t.a[1], f), ts.mapLeaves(t.a[2], f))
+}
+
 // ubounds: a cheap sound over-approximation of the unsigned range of t.
 func (ts *TermStore) ubounds(t *Term) (uint64, uint64) {
 	if t.bk {
@@ -748,9 +820,9 @@ func (ts *TermStore) ubounds(t *Term) (uint64, uint64) {
 		_, h1 := ts.ubounds(t.a[0])
 		hi = min(hi, h1)
 	case OpUDiv:
-		_, h1 := ts.ubounds(t.a[0])
+		l1, h1 := ts.ubounds(t.a[0])
 		if t.a[1].op == OpConst && t.a[1].val != 0 {
-			hi = h1 / t.a[1].val
+			lo, hi = l1/t.a[1].val, h1/t.a[1].val
 		} else {
 			hi = h1
 		}
@@ -767,6 +839,30 @@ func (ts *TermStore) ubounds(t *Term) (uint64, uint64) {
 		s, c := bits.Add64(h1, h2, 0)
 		if c == 0 && s <= mask(t.w) {
 			lo, hi = l1+l2, s
+		} else if t.a[1].op == OpConst {
+			// x + k with k = -n (mod 2^w): x - n when x >= n throughout
+			n := (-t.a[1].val) & mask(t.w)
+			if l1 >= n {
+				lo, hi = l1-n, h1-n
+			}
+		}
+	case OpSub:
+		l1, h1 := ts.ubounds(t.a[0])
+		l2, h2 := ts.ubounds(t.a[1])
+		if l1 >= h2 {
+			lo, hi = l1-h2, h1-l2
+		}
+	case OpNeg:
+		l1, h1 := ts.ubounds(t.a[0])
+		if l1 >= 1 {
+			lo, hi = (-h1)&mask(t.w), (-l1)&mask(t.w)
+		}
+	case OpMul:
+		l1, h1 := ts.ubounds(t.a[0])
+		l2, h2 := ts.ubounds(t.a[1])
+		ph, pl := bits.Mul64(h1, h2)
+		if ph == 0 && pl <= mask(t.w) {
+			lo, hi = l1*l2, pl
 		}
 	case OpShl:
 		_, h1 := ts.ubounds(t.a[0])
